@@ -110,14 +110,43 @@ def refine_trees():
     return out
 
 
+def vclass_trees():
+    """constructors x operand value classes (value / property / invalid) in every operand position"""
+    N = rg.N
+    G = lambda n: N('ID_GLOBAL', n)
+    ops = {'V': [lambda: G('X1'), lambda: G('D1')],
+           'P': [lambda: N('BOOLEAN', None, [G('X1')]), lambda: G('D5')],
+           'I': [lambda: N('NT_ENUMERATION', None, [N('BOOLEAN', None, [G('X1')])]), lambda: G('D6'), lambda: N('BOOL', None, [G('D5')])]}
+    out = []
+    import itertools
+    for arity in (2, 3):
+        for classes in itertools.product('VPI', repeat=arity):
+            if arity == 3 and classes.count('I') != 1:
+                continue
+            for pick in range(2):
+                kids = [ops[c][pick % len(ops[c])]() for c in classes]
+                tag = ''.join(classes)
+                out.append((f'vclass:DECART:{tag}', N('DECART', None, kids)))
+                out.append((f'vclass:TUPLE:{tag}', N('NT_TUPLE', None, [k if True else k for k in kids])))
+                if arity == 2:
+                    for o in ('UNION', 'INTERSECTION', 'SET_MINUS', 'SYMMINUS'):
+                        out.append((f'vclass:{o}:{tag}', N(o, None, [ops[classes[0]][pick % len(ops[classes[0]])]() if classes[0] != 'I' else N('BOOL', None, [G('D5')]),
+                                                                    ops[classes[1]][pick % len(ops[classes[1]])]() if classes[1] != 'I' else N('BOOL', None, [G('D5')])])))
+                    for o in ('IN', 'SUBSET_OR_EQ', 'SUBSET', 'EQUAL'):
+                        left = kids[0] if o != 'IN' else N('DEBOOL', None, [N('NT_ENUMERATION', None, [rg.map_locals(kids[0], lambda x: x)])])
+                        out.append((f'vclass:{o}:{tag}', N(o, None, [left, kids[1]])))
+    return out
+
+
 def refine_cases():
     ctx = ty.Ctx()
-    ctx.types = {'X1': ty.S(ty.E('X1')), 'S1': ty.S(ty.T(ty.E('X1'), ty.E('X1'))), 'S2': ty.S(ty.S(ty.E('X1')))}
+    ctx.types = {'X1': ty.S(ty.E('X1')), 'S1': ty.S(ty.T(ty.E('X1'), ty.E('X1'))), 'S2': ty.S(ty.S(ty.E('X1'))),
+                 'D1': ty.S(ty.E('X1')), 'D5': ty.S(ty.E('X1')), 'D6': ty.S(ty.E('X1'))}
     ctx.traits = {'X1': 'nominal'}
-    ctx.vclass = {'X1': 'value', 'S1': 'value', 'S2': 'value'}
+    ctx.vclass = {'X1': 'value', 'S1': 'value', 'S2': 'value', 'D1': 'value', 'D5': 'props'}     # D6: typed, but no value class
     ops = [{'op': 'rs.ctx', 'ctx': 'c', 'spec': ctx.spec()}]
     items = []
-    for label, tree in refine_trees():
+    for label, tree in refine_trees() + vclass_trees():
         for syntax in ('MATH', 'ASCII'):
             src = rg.map_locals(tree, (lambda x: x) if syntax == 'MATH' else rg.translit)
             text, _sp = rg.render(src, syntax)
